@@ -2,16 +2,28 @@
 
 use serde::{Deserialize, Serialize};
 
+use crate::bvm::{self, BvmCase};
 use crate::core::{RunOut, Tier};
+use crate::iters::{self, IterCase};
+use crate::pf::{self, PfCase};
 use crate::prng::run_seed;
+use crate::qvb::{self, QvbCase};
+use crate::ser::{self, SerCase};
+use crate::thr::{self, ThrCase};
 use crate::trees::{self, TreeCase};
 
 #[derive(Clone, Debug, Serialize, Deserialize)]
 pub enum Case {
     Tree(TreeCase),
+    Bvm(BvmCase),
+    Iter(IterCase),
+    Qvb(QvbCase),
+    Ser(SerCase),
+    Pf(PfCase),
+    Thr(ThrCase),
 }
 
-pub const CLAIMED: [&str; 2] = ["C02", "C03"];
+pub const CLAIMED: [&str; 8] = ["C02", "C03", "C08", "C09", "C11", "C12", "C13", "C18"];
 
 /// Number of runs of a batch (fixed counts, never "run for N seconds").
 pub fn plan_runs(prop: &str, tier: Tier) -> u64 {
@@ -26,8 +38,14 @@ pub fn plan_parts(prop: &str, tier: Tier) -> (u64, u64, u64) {
         Tier::Thorough => t,
     };
     match prop {
-        "C02" => (scale(6000, 300_000), scale(240, 6000), scale(0, 12)),
-        "C03" => (scale(6000, 300_000), scale(240, 6000), scale(0, 8)),
+        "C02" => (scale(24_000, 600_000), scale(600, 12_000), scale(0, 12)),
+        "C03" => (scale(24_000, 600_000), scale(600, 12_000), scale(0, 8)),
+        "C08" => (scale(40_000, 3_000_000), 0, 0),
+        "C09" => (scale(3_000, 150_000), 0, 0),
+        "C11" => (scale(20_000, 2_000_000), 0, 0),
+        "C12" => (scale(60_000, 4_000_000), 0, 0),
+        "C13" => (scale(50_000, 4_000_000), 0, 0),
+        "C18" => (scale(400, 6_000), 0, 0),
         _ => (0, 0, 0),
     }
 }
@@ -48,6 +66,12 @@ pub fn gen(prop: &str, seed: u64, tier: Tier, r: u64) -> Case {
                 Case::Tree(trees::gen_deep_case(prop, rs, levels))
             }
         }
+        "C08" => Case::Bvm(bvm::gen_case(rs, tier)),
+        "C09" => Case::Pf(pf::gen_case(rs, tier)),
+        "C11" => Case::Ser(ser::gen_case(rs, tier)),
+        "C12" => Case::Iter(iters::gen_case(rs, tier)),
+        "C13" => Case::Qvb(qvb::gen_case(rs, tier)),
+        "C18" => Case::Thr(thr::gen_case(rs, tier)),
         _ => panic!("harness bug: unknown property {prop}"),
     }
 }
@@ -55,12 +79,31 @@ pub fn gen(prop: &str, seed: u64, tier: Tier, r: u64) -> Case {
 pub fn exec(case: &Case) -> RunOut {
     match case {
         Case::Tree(c) => trees::exec(c),
+        Case::Bvm(c) => bvm::exec(c),
+        Case::Iter(c) => iters::exec(c),
+        Case::Qvb(c) => qvb::exec(c),
+        Case::Ser(c) => ser::exec(c),
+        Case::Pf(c) => pf::exec(c),
+        Case::Thr(c) => thr::exec(c),
     }
 }
 
-pub fn property_of(case: &Case) -> String {
+/// After minimisation: lets a case absorb artefacts of its violation (C18: the failing schedule).
+pub fn finalize(case: &Case, detail: &str) -> Case {
     match case {
-        Case::Tree(c) => c.property.clone(),
+        Case::Thr(c) => {
+            let mut c = c.clone();
+            if let Some(a) = detail.find("schedule=\"") {
+                let rest = &detail[a + 10..];
+                if let Some(b) = rest.find('"') {
+                    if !rest[..b].is_empty() {
+                        c.replay_schedule = Some(rest[..b].to_string());
+                    }
+                }
+            }
+            Case::Thr(c)
+        }
+        other => other.clone(),
     }
 }
 
@@ -75,13 +118,14 @@ fn truncate_json(v: serde_json::Value, depth: usize) -> serde_json::Value {
     match v {
         Value::Array(a) => {
             let n = a.len();
-            let keep = if depth == 0 { 64 } else { 24 };
+            let keep = 24;
             let mut out: Vec<Value> = a.into_iter().take(keep).map(|x| truncate_json(x, depth + 1)).collect();
             if n > keep {
                 out.push(Value::String(format!("... {} more", n - keep)));
             }
             Value::Array(out)
         }
+        Value::String(s) if s.len() > 160 => Value::String(format!("{}... ({} chars)", &s[..160], s.len())),
         Value::Object(o) => Value::Object(o.into_iter().map(|(k, x)| (k, truncate_json(x, depth + 1))).collect()),
         x => x,
     }
@@ -91,6 +135,12 @@ pub fn rule(prop: &str) -> &'static str {
     match prop {
         "C02" => "one case = one generated sequence (frequency-profile generator: single, equiprobable, geometric, plateaus, zipf, near-ties, heavy+singletons, deep, random; dense/holed/high/power-of-4 alphabets; 4 arrangements) built K times through the real constructor under K simulated enumeration orders of the two hash maps (canonical, reverse, seeded; all permutations for alphabets <= 6) and swept with get/rank/rank_prefetch/select against the naive model. distinct = distinct serialized structures (FNV of the bincode bytes) reached; non-trivial = the sequence has >= 2 distinct symbols (so a code table exists and enumeration order can matter)",
         "C03" => "as C02 with binary fragments; alias HWT (two simulated hash-map orders) in 2/3 of the cases and WT (no seam, control for the shared binary machinery) in 1/3; distinct = distinct serialized structures; non-trivial = >= 2 distinct symbols",
+        "C08" => "one case = an initial state (new / with_capacity / with_zeros / collected from bools / collected from positions) plus a history of up to 40 (quick) or 60 (thorough) operations drawn with per-run weights from push, append_bits, extend_with_zeros, set, set_bits, extend(bools), extend(positions), shrink_to_fit and the lifecycle events clone, freeze/thaw, iter().collect(), into_iter().collect(), persist+restart through the simulated disk under retryable faults; the Vec<bool> model is compared after every step (len, counts, get, get_bits, get_word) and fully (iterators, *_with_pos, frozen readers, ==) every 8th step and at the end. distinct = distinct (initial state kind, operation-kind sequence, final length mod 512, density class) fingerprints; non-trivial = history of >= 2 operations",
+        "C09" => "one case = a quad tree (8 aliases) over a generated sequence of up to 20000 (quick) / 70000 (thorough) symbols with 2..1000 distinct symbols; ~400 (symbol, position) pairs, valid or not; rank_prefetch is compared with rank with the prefetch fault point disarmed, then again (together with get) with every prefetch offset perturbed at the sink with per-run probability and kind mask; per-run answer digests are compared with the build without the crate's prefetch feature. distinct = distinct (alias, levels, sampling periods, perturbation probability, kind mask); non-trivial = >= 2 levels",
+        "C11" => "one case = one value of one of the 19 serializable public types (trees under seeded enumeration orders, bit/quad structures, Default values) x one of 5 bincode configurations x a transport: fault-free in-memory (40%) or the simulated disk with an explicit fault script keyed by byte offset (short writes/reads, EINTR, optional BufWriter/BufReader of random capacity, sync, crash after sync; in 30% of faulty runs also hard errors, crash before sync, early EOF, which are informational only). Obligations when owed: success, ==, byte-identical re-serialization, 60 queries answered identically. distinct = distinct (type, configuration, fault-kind set, transport knobs, size class); non-trivial = non-empty value",
+        "C12" => "one case = a container (10 tree aliases under seeded enumeration orders, BitVector, BitVectorMut, DArray, QVector, RSQVector) of 0..600 elements, one of its iterators (iter, (&x).into_iter, into_iter, ones/zeros[_with_pos]) and a history of up to 2n+12 calls over the methods that iterator has {next, next_back, len}; a VecDeque model is compared after every call, including after exhaustion. distinct = distinct (iterator type, iterator kind, size class, first 24 calls, length class); non-trivial = >= 2 elements and >= 3 calls",
+        "C13" => "one case = QVectorBuilder::new / with_capacity / collect, then up to 30 operations from push(any u8), extend(vector of one of the 12 integer types, any bit pattern), clone-and-continue, snapshot (clone().build() compared with the model), finally build(); or QVector::from_iter directly. Model = Vec<u8> of the two low bits. distinct = distinct (operation-kind sequence, length mod 256, lines); non-trivial = >= 2 symbols",
+        "C18" => "one scenario = one immutable structure (19 types) with a batch of 30..90 queries: sequential purity (answers repeated and in another order, serialized bytes before/after), then 2..4 simulated threads each issuing an overlapping two-thirds slice of the batch on the shared reference under seeded random or PCT schedules with scheduling points between queries and at the H4 points inside query loops; every answer is asserted against the single-thread answer. evaluations counts scenarios; distinct = distinct schedules (hash of the sequence of scheduling choices); non-trivial = non-empty structure",
         _ => "",
     }
 }
